@@ -567,7 +567,7 @@ def flood_idle():
 
 
 # =========================================================================== sequence family M3 (generated operation sequences)
-def seq_program(idx, sym=('d1', 'd2', 't1')):
+def seq_program(idx, sym=('d1', 'd2', 't1'), ext=False):
     """A pseudo-randomly generated (seeded by idx, hence deterministic) two-bus program: handler kinds with children on the own or
     the other bus, and a main script mixing dispatches, sleeps of symbolic length, (late) awaits, idle waits, late registration of
     a wildcard handler and re-dispatch of completed events. Both buses are first used from main (not inside a handler)."""
@@ -667,12 +667,39 @@ def seq_program(idx, sym=('d1', 'd2', 't1')):
         cfg['timeouts'] = {'P1': '1/4'}
         cfg['T'] = '1/4'
         reals['d1'] = ['0', '3/5']
-    used = json_dumps(handlers) + json_dumps(main)
+    if ext:
+        # family M4: the same programs with further ingredients, drawn from a separate stream so that M3 stays what it was:
+        # synchronous work after a dispatch (time passes without the loop running), an external dispatch a solver-chosen number of
+        # loop iterations after t1 (same-instant orderings), a background task spawned by a handler, reading completed events
+        # through every accessor
+        rng2 = random.Random(5000 + idx)
+        feats = cfg['features']
+        if rng2.random() < 0.5:
+            pos = [i for i, st in enumerate(main) if st[0] == 'root' and i > 1]
+            if pos:
+                main.insert(rng2.choice(pos) + 1, ['block', 'b'])
+                reals['b'] = ['0', '3/20']
+                feats['block'] = True
+        if rng2.random() < 0.5:
+            cfg['actors'] = {'s': [['sleep', 't1'], ['sleep_steps', 'k'], ['root', rng2.choice(['A', 'B']), 'X', 'Xa']]}
+            cfg['ints'] = {'k': [0, 6]}
+            reals.setdefault('t1', ['0', '3/10'])
+            feats['steps_actor'] = True
+        rng2.random()     # (a background task spawned by a handler was tried here: with the handler's inherited context it acts as a
+        #                    second inline processor, i.e. findings F0/F6/F20 in every program — kept to the hand-picked C08 scenario)
+        if rng2.random() < 0.5:
+            for i, st in enumerate(list(main)):
+                if st[0] == 'obs' and st[1] == 'after_await':
+                    main.insert(i + 1, ['accessors_all', st[2]])
+                    feats['accessors'] = True
+                    break
+        cfg['m4'] = True
+    used = json_dumps(handlers) + json_dumps(main) + json_dumps(cfg.get('actors', {}))
     for v in list(reals):
         if f'"{v}"' not in used:
             del reals[v]
     # variables not in `sym` are pinned (quick tier: fewer symbolic reals per program, more programs)
-    pins = {'d1': '1/8', 'd2': '7/100', 't1': '13/100'}
+    pins = {'d1': '1/8', 'd2': '7/100', 't1': '13/100', 'b': '3/25'}
     for v in list(reals):
         if v not in sym:
             reals[v] = [pins[v], pins[v]]
@@ -681,6 +708,10 @@ def seq_program(idx, sym=('d1', 'd2', 't1')):
 
 def matrix3_rows(tier):
     return list(range(48 if tier == 'quick' else 240))
+
+
+def matrix4_rows(tier):
+    return list(range(16 if tier == 'quick' else 120))
 
 
 
